@@ -346,15 +346,18 @@ def main(argv=None):
     # unreplayed (inconclusive), never as held
     MAXR = getattr(h, "MAX_REPLAYS", 400)
     PER_GROUP = getattr(h, "REPLAYS_PER_GROUP", 3)
-    grp = {}
-    to_replay, skipped = [], []
+    # round-robin over the groups (first one counterexample of EVERY group, then a second one, ...): a flood of
+    # counterexamples in the first items must not use up the budget before later items had a single replay
+    by_group = {}
     for cse in cases:
-        g = (cse["cfg"].get("id"), cse.get("kind"))
-        grp[g] = grp.get(g, 0) + 1
-        if grp[g] <= PER_GROUP and len(to_replay) < MAXR:
-            to_replay.append(cse)
-        else:
-            skipped.append(cse)
+        by_group.setdefault((cse["cfg"].get("id"), cse.get("kind")), []).append(cse)
+    to_replay, skipped = [], []
+    for rnd_ in range(PER_GROUP):
+        for g, lst in by_group.items():
+            if rnd_ < len(lst):
+                (to_replay if len(to_replay) < MAXR else skipped).append(lst[rnd_])
+    for g, lst in by_group.items():
+        skipped.extend(lst[PER_GROUP:])
     to_replay = to_replay + twin_cases
     rep = do_replays(prop, prop, repo, to_replay, os.path.join(VERIF, "out", "replays"))
     violations = []
